@@ -734,7 +734,7 @@ package grpctunnel
 //@   requires st != nil
 //@   at call cancel#1
 //@     assert[C04,C14] @afterdone isClosed(doneOf(st.ctx))
-//@   ensures[C04,C07,C14] @onewait count("blocking") == 1 && count("call:cancel") == 1
+//@   ensures[C04,C07,C14] @onewait count("blocking") == 1 && (count("call:cancel") == 1 || atomicLoad(st.halfClosed) != nil)
 //@   assigns rcancelled(st.receiver)
 
 // ----- serve loop --------------------------------------------------------------
